@@ -253,7 +253,7 @@ async fn drive(s: &MtScn) -> MtOutcome {
 	}
 	waiters.extend(collector.await.unwrap_or_default());
 	// let the queues drain (bounded), then end the job
-	tokio::time::sleep(Duration::from_millis(60)).await;
+	tokio::time::sleep(Duration::from_millis(25)).await;
 	let end_ticket = match s.end {
 		0 => Some(job.delete()),
 		1 => Some(job.delete_now()),
